@@ -1,4 +1,4 @@
-"""Translator for three one-line decision rules, read from /repo's CURRENT source with Python's ast and emitted as binary64
+"""Translator for three one-line decision rules, read from /repo's CURRENT source with Python's ast and emitted (one generated file per rule) as binary64
 (PrimFloat) Gallina definitions in coq/Gen/SmallGen.v:
     MPO.check_if_identity            the verdict expression of the equivalence checker          (C04)
     AnalogSimParams.__init__         self.times = ...                                          (C15)
@@ -14,7 +14,6 @@ import ast
 import pathlib
 
 REPO = pathlib.Path("/repo/src/mqt/yaqs")
-OUT = pathlib.Path("/verif/coq/Gen/SmallGen.v")
 
 
 class Unsupported(Exception):
@@ -119,7 +118,13 @@ def func(tree, name, cls=None):
     raise Unsupported(f"{cls or ''}.{name} not found")
 
 
-def regenerate():
+HEAD = ("(* GENERATED on every run by harness/gen/translate_small.py from /repo's current source.  Do not edit. *)\n"
+        "From Coq Require Import ZArith List Bool PrimFloat.\nImport ListNotations.\n"
+        "From Yaqs Require Import Base.Num Model.Verdict Model.Grid Model.NoiseAttrib.\n\n")
+GEN = pathlib.Path("/verif/coq/Gen")
+
+
+def part_verdict():
     out = []
     # ---- C04 verdict ----
     t = ast.parse((REPO / "core/data_structures/networks.py").read_text())
@@ -133,6 +138,11 @@ def regenerate():
         raise Unsupported("verdict is not boolean")
     out.append(f"(* networks.py MPO.check_if_identity:  return {ast.unparse(rets[0].value)} *)\n"
                f"Definition verdict_src (abs_trace : float) (n : nat) (fidelity : float) : bool :=\n  {txt}.\n")
+    return out
+
+
+def part_times():
+    out = []
     # ---- C15 grid ----
     t = ast.parse((REPO / "core/data_structures/simulation_parameters.py").read_text())
     fn = func(t, "__init__", "AnalogSimParams")
@@ -144,6 +154,11 @@ def regenerate():
         raise Unsupported("times is not a list of floats")
     out.append(f"(* simulation_parameters.py AnalogSimParams.__init__:  self.times = {ast.unparse(asg[0].value)} *)\n"
                f"Definition times_src (elapsed_time dt : float) : list float :=\n  {txt}.\n")
+    return out
+
+
+def part_jump():
+    out = []
     # ---- C14 time matching ----
     t = ast.parse((REPO / "core/methods/scheduled_jumps.py").read_text())
     fn = func(t, "has_scheduled_jump")
@@ -167,6 +182,11 @@ def regenerate():
         raise Unsupported("jump test is not boolean")
     out.append(f"(* scheduled_jumps.py apply_scheduled_jumps:  if {ast.unparse(loops[0].body[0].test)}: apply *)\n"
                f"Definition jump_applied_src (jump_time time dt : float) : bool :=\n  {txt}.\n")
+    return out
+
+
+def part_local():
+    out = []
     # ---- C03 local noise model of a gate ----
     t = ast.parse((REPO / "digital/digital_tjm.py").read_text())
     fn = func(t, "create_local_noise_model")
@@ -217,13 +237,31 @@ def regenerate():
 
     out.append(f"(* digital_tjm.py create_local_noise_model:  [p for p in noise_model.processes if {ast.unparse(g.ifs[0])}] *)\n"
                f"Definition local_selected_src (a b : nat) (sites : list nat) : bool :=\n  {sel(g.ifs[0])}.\n")
-    head = ("(* GENERATED on every run by harness/gen/translate_small.py from /repo's current source.  Do not edit. *)\n"
-            "From Coq Require Import ZArith List Bool PrimFloat.\nImport ListNotations.\n"
-            "From Yaqs Require Import Base.Num Model.Verdict Model.Grid Model.NoiseAttrib.\n\n")
-    new = head + "\n".join(out)
-    if not OUT.exists() or OUT.read_text() != new:
-        OUT.write_text(new)
-    return new
+    return out
+
+
+PARTS = {"verdict": ("VerdictGen.v", part_verdict), "times": ("TimesGen.v", part_times), "jump": ("JumpTimeGen.v", part_jump),
+         "local": ("LocalGen.v", part_local)}
+
+
+def regenerate(parts=None):
+    """one generated file per rule (and per property), so that a rule the translator cannot read any more breaks the obligations of
+    the property it belongs to and of no other"""
+    failed, texts = [], []
+    for name in parts or PARTS:
+        fname, fn = PARTS[name]
+        try:
+            new = HEAD + "\n".join(fn())
+        except Unsupported as e:
+            failed.append(f"{name}: {e}")
+            continue
+        target = GEN / fname
+        if not target.exists() or target.read_text() != new:
+            target.write_text(new)
+        texts.append(new)
+    if failed:
+        raise Unsupported("; ".join(failed))
+    return "\n".join(texts)
 
 
 if __name__ == "__main__":
